@@ -81,8 +81,11 @@ func (m *MessageClientKeyExchange) Unmarshal(data []byte) error {
 		if publicKeyLength > len(data)-1-offset {
 			return dtlserrors.ErrBufferTooSmall
 		}
+		if publicKeyLength != len(data)-1-offset {
+			return dtlserrors.ErrLengthMismatch
+		}
 
-		m.PublicKey = bytes.Clone(data[offset+1:])
+		m.PublicKey = bytes.Clone(data[offset+1 : offset+1+publicKeyLength])
 	}
 
 	return nil
